@@ -204,6 +204,18 @@ func verifRenameCheckV(src []byte, version int) {
 		}
 		vAssert(found, "KeepVarNames: no identifier is changed")
 	}
+	// no reference loses its declaration (e.g. because the block that held it was dissolved): free occurrences stay free,
+	// bound ones stay bound
+	free := func(vs []*js.Var) int {
+		n := 0
+		for _, v := range vs {
+			if v.Decl == js.NoDecl {
+				n++
+			}
+		}
+		return n
+	}
+	vAssert(free(v0) == free(v1) && free(v0) == free(v2), "the number of free variable occurrences stays the same")
 	vAssume(len(v1) == len(v2)) // structural differences between the two modes are not covered
 	for i := range v1 {
 		for j := i + 1; j < len(v1); j++ {
@@ -421,9 +433,14 @@ var verifRenameShapes = []string{
 	"{let foolong=1;with(o){g(foolong)}}",
 	"with(o){let xlong=1;g(xlong)}",
 	"{let foolong=1;{let barlong=2;with(o){g(foolong,barlong)}}}",
+	"{const along=g(()=>along)}",
+	"{let along=g(function(){return along})}",
+	"x=function(){{const along=g(()=>along)}};",
+	"if(p){const along=g(()=>along)}",
+	"{let [along]=o;g(along)}",
 }
 
-// VerifJSRenameShapes: 16 scope shapes (the last three: `with` at the top level) x 4 target versions.
+// VerifJSRenameShapes: 21 scope shapes x 4 target versions.
 func VerifJSRenameShapes(n int) {
 	src := []byte(verifRenameShapes[vChoice("shape", len(verifRenameShapes))])
 	version := []int{0, 2018, 2015, 2020}[vChoice("version", 4)]
